@@ -2,7 +2,7 @@
 mod verif_kani {
     use super::*;
 
-    fn spec_v4(x: u32) -> bool {
+    pub(super) fn spec_v4(x: u32) -> bool {
         let a = (x >> 24) as u8;
         let b = ((x >> 16) & 0xff) as u8;
         let c = ((x >> 8) & 0xff) as u8;
@@ -10,6 +10,21 @@ mod verif_kani {
             || (a == 169 && b == 254) || x == 0xffff_ffff
             || (a == 192 && b == 0 && c == 2) || (a == 198 && b == 51 && c == 100) || (a == 203 && b == 0 && c == 113)
             || (a & 0xf0) == 224 || (a == 100 && (b & 0xc0) == 64)
+    }
+
+    #[kani::proof_for_contract(ipv4_is_non_global)]
+    fn v4_contract() {
+        let x: u32 = kani::any();
+        ipv4_is_non_global(Ipv4Addr::from(x));
+    }
+
+    // caller proved against the callee's contract only
+    #[kani::proof]
+    #[kani::stub_verified(ipv4_is_non_global)]
+    fn ip_dispatch_uses_contract() {
+        let x: u32 = kani::any();
+        let r = ip_is_non_global(IpAddr::V4(Ipv4Addr::from(x)));
+        assert!(r == spec_v4(x));
     }
 
     #[kani::proof]
@@ -130,3 +145,4 @@ mod verif_kani {
         assert!(got == (n > 0 && (all_num || hexlabel)));
     }
 }
+539:#[cfg_attr(kani, kani::ensures(|r: &bool| *r == verif_kani::spec_v4(u32::from(ip))))]
